@@ -319,7 +319,7 @@ def write_ndjson(path, recs):
     return n
 
 
-def run_batch(jobs, wd, name="batch", par=14):
+def run_batch(jobs, wd, name="batch", par=14, retry=True):
     """Compile (and run) jobs through the harness pipeline, one child process each."""
     jp = os.path.join(wd, name + ".jobs.ndjson")
     op = os.path.join(wd, name + ".results.ndjson")
@@ -328,6 +328,18 @@ def run_batch(jobs, wd, name="batch", par=14):
              "--par", str(par)])
     res = list(read_ndjson(op))
     shutil.rmtree(os.path.join(wd, name + ".w"), ignore_errors=True)
+    # a time-out under load is not a hang: run every timed-out job again, alone, with four times
+    # the limit, and believe that second run
+    slow = [k for k, r in enumerate(res) if r.get("crash") == "timeout" or (r.get("run") or {}).get("timeout")]
+    if slow and retry:
+        again = []
+        for k in slow:
+            j = dict(jobs[k])
+            j["timeout_ms"] = 4 * int(j.get("timeout_ms", 20000))
+            again.append(j)
+        res2 = run_batch(again, wd, name + "_retry", par=2, retry=False)
+        for k, r in zip(slow, res2):
+            res[k] = r
     return res
 
 
